@@ -301,7 +301,7 @@ def pf_periodic(D, T=4, kind='contract', period='2h', duration=None, ec=False, e
     return Shape(pf, tg, prices_for(D, pr, T))
 
 
-def mk_orderbook(D, name, node, tg, orders, full_exec=False, capa_sym=False, wacc=0, skip=None):
+def mk_orderbook(D, name, node, tg, orders, full_exec=False, capa_sym=False, wacc=0, skip=None, order_tz=None):
     """orders: list of (k0, k1, capa, sign) with window in step indices (may lie outside the horizon);
     capacity concrete at Level A (it multiplies the execution variable in nodal rows), price symbolic"""
     eao = lift.import_eao()
@@ -310,6 +310,8 @@ def mk_orderbook(D, name, node, tg, orders, full_exec=False, capa_sym=False, wac
         if skip is not None and i == skip:
             continue          # same book without this order (symbols of the others keep their names)
         s, e = window(tg, (k0, k1))
+        if order_tz is not None:          # the same instants quoted in another time zone
+            s, e = pd.Timestamp(s).tz_convert(order_tz), pd.Timestamp(e).tz_convert(order_tz)
         st.append(s); en.append(e)
         capa.append(D.coef('%s_capa%d' % (name, i), cp))
         price.append(D('%s_price%d' % (name, i)))
@@ -317,12 +319,12 @@ def mk_orderbook(D, name, node, tg, orders, full_exec=False, capa_sym=False, wac
     return eao.assets.OrderBook(name=name, nodes=node, orders=od, full_exec=full_exec, wacc=wacc)
 
 
-def pf_orderbook(D, T=3, orders=((0, 2, 2.0), (1, 3, -1.5), (1, 2, 1.0)), full_exec=False, storage=True, wacc=False, ob_last=False, freq='h', late_companion=False):
+def pf_orderbook(D, T=3, orders=((0, 2, 2.0), (1, 3, -1.5), (1, 2, 1.0)), full_exec=False, storage=True, wacc=False, ob_last=False, freq='h', late_companion=False, order_tz=None):
     eao = lift.import_eao()
     tg = grid(T, freq)
     (nA,) = nodes('A')
     w = D('wacc', lo=0) if wacc else 0
-    ob = mk_orderbook(D, 'ob', nA, tg, orders, full_exec=full_exec, wacc=w)
+    ob = mk_orderbook(D, 'ob', nA, tg, orders, full_exec=full_exec, wacc=w, order_tz=order_tz)
     assets = [ob, mk_market(D, 'mkt', nA, T, 'p', wacc=w)]
     if storage:
         assets.append(mk_storage(D, 'sto', nA, eff=None, costs=False, inflow=False, wacc=w))
